@@ -19,7 +19,9 @@ CLAUSES = (
     'the same popped item and writes private before public; '
     'recover_pub_from_pri copies private over public once n_tries reaches '
     'MAX_TRIES, via temp file + rename, and is called every main-loop '
-    'iteration. Not decided: SQLite transactional guarantees (trusted).')
+    'iteration. '
+    'A failed statement always re-raises out of the statement helper (so the batch handler runs). '
+    'Not decided: SQLite transactional guarantees (trusted).')
 
 QUEUES = ('delete_queues', 'insert_queue', 'update_queues')
 
@@ -163,6 +165,31 @@ def check(c):
                      c.where(cm, ex), 'commit is after (and never before) '
                      'the statement loop')
     single_transaction_rules(c)
+    # a failed statement always reaches the handler of the batch: the
+    # statement helper re-raises on every path of its own handler(s)
+    es = c.func('rundb', 'CylcWorkflowDAO._execute_stmt')
+
+    def always_raises(stmts):
+        if not stmts:
+            return False
+        last = stmts[-1]
+        if isinstance(last, ast.Raise):
+            return True
+        if isinstance(last, ast.If):
+            return always_raises(last.body) and always_raises(last.orelse)
+        return False
+    hs = [h for n in ast.walk(es.node) if isinstance(n, ast.Try)
+          for h in n.handlers]
+    c.floor('C21.error-path', f'{es.fq} :: exception handlers', len(hs), 1)
+    for h in hs:
+        ok = always_raises(h.body) and not any(
+            isinstance(x, ast.Return) for x in ast.walk(h))
+        c.ob('C21.error-path', f'{es.fq} :: handler of '
+             f'{norm(h.type) if h.type else "everything"} re-raises on every '
+             'path', ok, c.where(h, es), '' if ok else 'a failed statement '
+             'can return normally: the batch handler (rollback, keep the '
+             'queue, count the try) is by-passed and the rest of the batch '
+             'is committed')
     # error handling
     handlers = [h for h in the_try.handlers]
     sq = [h for h in handlers if h.type is not None and 'sqlite3.Error'
@@ -311,6 +338,16 @@ def check(c):
 
 
 VARIANTS = [
+    ('public-failure-returns-false', 'cylc/flow/rundb.py',
+     '''            if self.is_public:
+                LOG.info(err_log)
+            else:
+                LOG.warning(err_log)
+            raise
+''', '''            LOG.info(err_log)
+            return False
+        return True
+''', 'C21.error-path'),
     ('commit-in-loop', 'cylc/flow/rundb.py',
      '''                self._execute_stmt(stmt, stmt_args)
             # Connection''',
